@@ -407,12 +407,15 @@ func (c *Config) validateLogging() error {
 		return fmt.Errorf("invalid log level: %s (valid: debug, info, warn, error, fatal)", c.Logging.Level)
 	}
 
+	// "text" is the documented name of the human-readable format (the shipped helios.yaml
+	// uses it); "console" is kept as an alias
 	validLogFormats := map[string]bool{
 		"json":    true,
 		"console": true,
+		"text":    true,
 	}
 	if c.Logging.Format != "" && !validLogFormats[c.Logging.Format] {
-		return fmt.Errorf("invalid log format: %s (valid: json, console)", c.Logging.Format)
+		return fmt.Errorf("invalid log format: %s (valid: text, json, console)", c.Logging.Format)
 	}
 	return nil
 }
